@@ -104,7 +104,11 @@ func (vc *FuncVC) needCard(ks string) {
 		fmt.Sprintf("(= %s 0)", c("((as const "+set+") false)")),
 		fmt.Sprintf("(forall ((S %s) (k %s)) (! (=> (= %s 0) (not (select S k))) :pattern (%s (select S k))))", set, ks, c("S"), c("S")),
 		fmt.Sprintf("(forall ((S %s)) (! (=> (> %s 0) (select S (wit!%s S))) :pattern (%s)))", set, c("S"), n, c("S")),
+		// finite sets of equal cardinality that differ have an element of the first outside the second
+		fmt.Sprintf("(forall ((S %s) (T %s)) (! (=> (= %s %s) (or (= S T) (and (select S (dwit!%s S T)) (not (select T (dwit!%s S T)))))) :pattern (%s %s)))",
+			set, set, c("S"), c("T"), n, n, c("S"), c("T")),
 	)
+	vc.declareFun("dwit!"+n, []string{set, set}, ks)
 }
 
 func (vc *FuncVC) needStrFuns() {
@@ -232,6 +236,14 @@ func (vc *FuncVC) Query(ob *Obligation) string {
 	}
 	for _, a := range vc.axioms {
 		fmt.Fprintf(&ax, "(assert %s)\n", a)
+	}
+	gf := vc.w.GlobalFacts()
+	for _, n := range vc.declOrder {
+		if facts, ok := gf[n]; ok {
+			for _, f := range facts {
+				fmt.Fprintf(&ax, "(assert %s)\n", f)
+			}
+		}
 	}
 	axText := ax.String()
 	used := usedSymbols(text + axText)
